@@ -35,6 +35,24 @@ def point(rng, cname):
         tie = rng.random(dim) < 0.4
         tie[int(rng.integers(dim))] = False
         y = np.where(tie, x, y)
+    # exactly orthogonal arguments (disjoint supports, integer-valued data): cosine and correlation are smooth there
+    if cname in ("cosine", "correlation") and dim >= 4 and rng.random() < 0.25:
+        h = dim // 2
+        x = np.zeros(dim)
+        y = np.zeros(dim)
+        x[:h] = rng.integers(1, 5, h) * rng.choice([-1, 1], h)
+        y[h:] = rng.integers(1, 5, dim - h) * rng.choice([-1, 1], dim - h)
+        if cname == "correlation":
+            # centred vectors with zero dot product: both sum to zero on their own half
+            x[:h] -= x[:h].mean()
+            y[h:] -= y[h:].mean()
+            if h < 2 or dim - h < 2 or not x.any() or not y.any():
+                return None
+    # zero entries of y (sparse count data): the Hellinger distance is smooth in the corresponding x_i
+    if cname == "hellinger" and dim >= 3 and rng.random() < 0.3:
+        z = rng.random(dim) < 0.4
+        z[int(rng.integers(dim))] = False
+        y = np.where(z, 0.0, y)
     d = np.abs(x - y)
     # margins from kinks (minkowski / wminkowski are only exercised with p >= 1.25, where |t|^p is differentiable at 0)
     if cname in ("manhattan", "canberra", "braycurtis", "chebyshev") and np.min(d) < 1e-2:
@@ -68,7 +86,7 @@ def run(ctx):
     rng = ctx.rng
     names = sorted(D.named_distances_with_gradients)
     ctx.rule = ("for every name in named_distances_with_gradients: random points kept away from kinks (|x_i-y_i|>=1e-2 where an absolute "
-                "value is differentiated, exact coordinate ties x_i=y_i included where the metric is smooth there, minkowski p in {1.25..3}, no near-ties for chebyshev, distance >= 0.1), dims 1..32, all parameters; returned gradient vs "
+                "value is differentiated, exact coordinate ties x_i=y_i included where the metric is smooth there, exactly orthogonal arguments for cosine / correlation, zero entries of y for hellinger, minkowski p in {1.25..3}, no near-ties for chebyshev, distance >= 0.1), dims 1..32, all parameters; returned gradient vs "
                 "central finite differences (two step sizes) of the implementation's own returned distance (direction cosine >= 1-1e-4, "
                 "magnitude within 2e-3), and vs the Lean model; non-trivial = every accepted point; rejected points are counted")
     ctx.assumptions += ["gradients returned as float32 arrays and float32 internals: 1e-4 relative", "regularising constants (1e-6/1e-8) are below the tolerance at distance >= 0.1"]
